@@ -1197,6 +1197,7 @@ class RefAssignParser(BaseAssignParser):
 
         if (isinstance(self.obj, Model)
                 or not isinstance(decoder, TupleDecoder)
+                or isinstance(decoder, IOSpecDecoder)  # 3rd elm is spec id
                 or decoder.size() < 3):
             setter = Instruction.from_method(
                 obj=self.obj,
